@@ -25,7 +25,7 @@ ISOLATE = True
 # rewritten python kernels; the schedule of numba's threads is then nobody's decision and only the route oracle is exercised
 REAL_JIT = os.environ.get("NUMBA_DISABLE_JIT") == "0"
 TIERS = {
-    "quick": {"runs": 5000, "budget_s": 100, "timeout_s": 60, "chunk": 16, "det_sample": 48, "det_runs": 300},
+    "quick": {"runs": 5000, "budget_s": 150, "timeout_s": 60, "chunk": 16, "det_sample": 48, "det_runs": 300},
     "thorough": {"runs": 120000, "budget_s": 1500, "timeout_s": 120, "chunk": 16, "det_sample": 64, "det_runs": 1000},
 }
 RULE = ("seeded plans: (grid class/shape/bounds/periodicity, registered operator + documented options, dtype, boundary condition, "
